@@ -1,4 +1,6 @@
 import Momo.Proof.ObjMain
+import Momo.Proof.ArrFaultDone
+import Momo.Proof.BTreeFaultCopy
 /-!
 # C04 — Strongly exception-safe operations leave the container unchanged on failure
 
@@ -53,3 +55,294 @@ example : (relocateCreate .copyOnly (exSt []) 100 200 3 300 7).2 = .ok := by dec
 example : (relocateCreate .nmove (exSt [true]) 100 200 3 300 7).2 = .threw := by decide
 
 end Momo.Obj
+
+/-!
+## Arrays: `momo::Array` / `ArrayIntCap` under every fault schedule (model `Momo/Model/ArrFault.lean`)
+
+The operations of Array.h as written (`pvGrow`, `pvAddBackGrow` in its four overloads, `Data::Reallocate / Reset`,
+`RelocateCreate`, `SetCountCrt`, `Shrink`, the constructors and `operator=(const Array&)`), where every fallible step -
+`Allocate` / `Reallocate` of the memory manager, each element copy construction or creator call, construction from an
+rvalue of a type that is not nothrow-move-constructible, copy / move assignment - consumes one decision of the fault
+schedule `x.faults` (an arbitrary `List Bool`), and an exception unwinds through the catch blocks and guard destructors
+of the source.  `x.arr` is the `Array::Data` (cells `live v | moved`, capacity, internal / external storage),
+`x.blocks` / `x.objs` / `x.bad` the ledger of outstanding memory blocks and constructed-but-not-destroyed item objects.
+`Valid cfg rest k x` = the array satisfies the representation invariant `Momo.Arr.WF` and the ledger is *exactly* what
+the array owns (its block if the storage is external, one object per cell) plus the blocks `rest` and `k` objects of the
+rest of the program; no bad deallocation / destruction has been seen.  `Post m x Q E` = running `m` from `x` either
+completes in a state satisfying `Q` or throws in a state satisfying `E`.
+
+Quantifiers: every configuration (`cfg`: internal capacity, relocation category of the item type, `Reallocate` /
+`ReallocateInplace` support and answer, growth policy), every choice of which element operations can throw (`thr`),
+every valid state (cells live or moved-from), every argument incl. a value argument that is element `j` of the same
+array (`Ref.elem j`, the aliasing paths), every fault schedule.
+-/
+namespace Momo.ArrF
+open Momo.Arr
+variable {α : Type}
+
+/-- **C04, arrays.** "If an operation the library documents as strongly exception-safe (… AddBack, resize, reserve,
+shrink, copy … assignment …) exits with an exception raised by the memory manager, by an element's copy constructor or
+constructor-from-arguments … then the container's observable contents, order and count are exactly those before the
+call, nothing is leaked, and the container remains fully usable."  For `AddBack(const Item&)`, `AddBack(Item&&)`,
+`AddBackCrt/AddBackVar` (lvalue or rvalue argument), `SetCount(count, item)`, `Reserve`, `Shrink`,
+`operator=(const Array&)`: under EVERY fault schedule the call either completes with exactly the state of the fault-free
+model `Momo.Arr` (itself valid, ledger exact), or throws with the array - cells, order, count, capacity, storage - and
+the ledger exactly as before (`y.core = x.core`). -/
+theorem C04_array_strong_every_fault (cfg : Cfg) (thr : Thr) (rest : List Nat) (k : Nat) (op : FOp α)
+    (hop : op.strong = true) (x : Sys α) (v : Valid cfg rest k x) :
+    Post (stepF cfg thr op) x
+      (fun _ y => y.arr = (pureStep cfg x.arr op).1 ∧ Valid cfg rest k y)
+      (fun y => y.arr = x.arr ∧ y.blocks = x.blocks ∧ y.objs = x.objs ∧ y.bad = x.bad) :=
+  Post.mono (strong_step cfg thr rest k op hop x v (by cases op <;> simp [FOp.strong] at hop <;> trivial))
+    (fun _ _ h => h) (fun y h => (core_eq_iff x y).mp h)
+
+/-- **C04, "remains fully usable".** Whatever happened - success or exception - the state after a strong operation is
+again a valid array with an exact ledger, i.e. it satisfies the hypothesis of every theorem of this section: any
+operation can be applied to it. -/
+theorem C04_array_usable_after (cfg : Cfg) (thr : Thr) (rest : List Nat) (k : Nat) (op : FOp α)
+    (hop : op.strong = true) (x : Sys α) (v : Valid cfg rest k x) :
+    Post (stepF cfg thr op) x (fun _ y => Valid cfg rest k y) (fun y => Valid cfg rest k y) :=
+  Post.mono (strong_step cfg thr rest k op hop x v (by cases op <;> simp [FOp.strong] at hop <;> trivial))
+    (fun _ _ h => h.2) (fun _ h => valid_of_core v h)
+
+/-- **C04, constructors.** "A constructor that fails leaves nothing allocated and nothing constructed."
+`Array(const Array&, bool shrink)` and `Array(count, item)`: under every fault schedule either the new object is the
+fault-free one and the ledger gained exactly its block and one object per item, or the constructor throws and the
+ledger is as it was; in particular an empty ledger stays empty. -/
+theorem C04_array_constructor_clean (cfg : Cfg) (thr : Thr) (src : State α) (shrinkFlag : Bool) (count : Nat) (c : Cell α)
+    (x : Sys α) (w : WF cfg src) :
+    Post (copyCtorF cfg thr src shrinkFlag) x
+      (fun _ y => y.arr = (copyCtor cfg src shrinkFlag).1 ∧ WF cfg y.arr ∧
+        y.blocks = ownBlocks cfg y.arr ++ x.blocks ∧ y.objs = x.objs + y.arr.cells.length ∧ y.bad = x.bad)
+      (fun y => y.blocks = x.blocks ∧ y.objs = x.objs ∧ y.bad = x.bad ∧
+        (x.blocks = [] → x.objs = 0 → y.blocks = [] ∧ y.objs = 0)) ∧
+    Post (newFillF cfg thr count c) x
+      (fun _ y => y.arr = (newFill cfg count c).1 ∧ WF cfg y.arr ∧
+        y.blocks = ownBlocks cfg y.arr ++ x.blocks ∧ y.objs = x.objs + y.arr.cells.length ∧ y.bad = x.bad)
+      (fun y => y.blocks = x.blocks ∧ y.objs = x.objs ∧ y.bad = x.bad ∧
+        (x.blocks = [] → x.objs = 0 → y.blocks = [] ∧ y.objs = 0)) := by
+  refine ⟨Post.mono (ctor_step cfg thr _ src.cells x ?_) (fun _ _ h => h) ?_,
+    Post.mono (ctor_step cfg thr count (List.replicate count c) x (by simp)) (fun _ _ h => h) ?_⟩
+  · split
+    · exact Nat.le_refl _
+    · exact w.count_le
+  · rintro y ⟨h1, h2, h3⟩; exact ⟨h1, h2, h3, fun a b => ⟨h1.trans a, h2.trans b⟩⟩
+  · rintro y ⟨h1, h2, h3⟩; exact ⟨h1, h2, h3, fun a b => ⟨h1.trans a, h2.trans b⟩⟩
+
+/-- **C04, the fault-free run.** With an exhausted fault schedule (nothing fails) every operation - strong or basic -
+completes, and the result is the state of the fault-free model `Momo.Arr` (which Props/C05.lean relates to the reference
+sequence), valid, with an exact ledger: the "completes" branch of the theorems above is the one taken when nothing
+throws. -/
+theorem C04_array_no_fault_completes (cfg : Cfg) (thr : Thr) (rest : List Nat) (k : Nat) (op : FOp α)
+    (x : Sys α) (v : Valid cfg rest k x) (hpre : op.pre cfg x.arr) (hf : x.faults = []) :
+    ∃ y, (stepF cfg thr op).run x = (.ok (), y) ∧ y.arr = (pureStep cfg x.arr op).1 ∧ Valid cfg rest k y :=
+  nofault_step cfg thr rest k op x v hpre hf
+
+/-! Non-vacuity: a valid `ArrayIntCap<2>`-like state of a copy-only item type at full capacity, with the first item
+moved-from; concrete schedules that fail at each kind of step and one that succeeds. -/
+def exCfg : Cfg := { intCap := 2, keeps := true, nothrowReloc := false, nothrowMove := false }
+def exThr : Thr := { copy := true, move := true, assign := true }
+def exSys (faults : List Bool) : Sys Nat :=
+  { arr := { cells := [.moved, .live 11, .live 12, .live 13], cap := 4 }, faults := faults, blocks := [4, 99], objs := 4 + 5 }
+def outcome {β : Type} (r : Res β × Sys Nat) : Bool × Cells Nat × Nat × List Nat × Nat × Bool :=
+  (match r.1 with | .ok _ => true | .threw => false, r.2.arr.cells, capacity exCfg r.2.arr, r.2.blocks, r.2.objs, r.2.bad)
+
+example : Valid exCfg [99] 5 (exSys []) := by
+  refine ⟨⟨by decide, ?_, ?_, ?_⟩, by unfold Frame; decide, by decide, rfl⟩ <;> simp [exSys, exCfg]
+/-- `AddBack(array[1])` has to grow: the allocation is refused -/
+example : outcome ((stepF exCfg exThr (.addBackCopy (.elem 1))).run (exSys [true]))
+    = (false, [.moved, .live 11, .live 12, .live 13], 4, [4, 99], 9, false) := by decide
+/-- the third copy into the new storage throws: copies destroyed, new block returned -/
+example : outcome ((stepF exCfg exThr (.addBackCopy (.elem 1))).run (exSys [false, false, false, true]))
+    = (false, [.moved, .live 11, .live 12, .live 13], 4, [4, 99], 9, false) := by decide
+/-- the creator of the new item throws after all four copies -/
+example : outcome ((stepF exCfg exThr (.addBackCopy (.elem 1))).run (exSys [false, false, false, false, false, true]))
+    = (false, [.moved, .live 11, .live 12, .live 13], 4, [4, 99], 9, false) := by decide
+/-- no fault: the fault-free result, one more object, the old block replaced by the new one -/
+example : outcome ((stepF exCfg exThr (.addBackCopy (.elem 1))).run (exSys []))
+    = (true, [.moved, .live 11, .live 12, .live 13, .live 11], 8, [8, 99], 10, false) := by decide
+example : (pureStep exCfg (exSys []).arr (.addBackCopy (.elem 1))).1.cells = [.moved, .live 11, .live 12, .live 13, .live 11] := by
+  decide
+/-- a failing copy constructor: the three items already copied are destroyed, the block is returned -/
+example : outcome ((copyCtorF exCfg exThr (exSys []).arr true).run { (exSys [false, false, false, false, true]) with blocks := [], objs := 0 })
+    = (false, [], 2, [], 0, false) := by decide
+
+end Momo.ArrF
+
+/-! # B-tree family (`momo::TreeSet` / `momo::TreeMap`): the strong guarantee under every fault schedule
+
+Model: `Momo/Model/BTreeFault.lean` — the fault-parametric layer over the B-tree model of C02: every call of the comparison
+functor, every `MemManager::Allocate` (node-params block, `Node::Create`, growth of the Relocator's four bookkeeping arrays,
+crew block), every element construction (creator, the copies of a not-nothrow-relocatable relocation) and every element
+assignment of `Replace` consults an explicit schedule `S : Sched`; a ledger counts live leaf / internal nodes, items,
+bookkeeping blocks, params and crew blocks. The theorems hold for EVERY schedule, every configuration (`maxCap ≥ 1`, any
+capacity step, linear or binary search, unique or multi), every item category `ic` (nothrow relocatable or not, nothrow
+assignable or not), every well-formed container (`FTree.WF`: the invariant of C02 + "a root exists only with its params")
+and every position / key. Lemmas: `Momo/Proof/BTreeFault*.lean`. -/
+namespace Momo.BTreeF
+open Momo.BTree Momo.BTree.Node
+variable {α : Type}
+
+/-- **The Relocator never leaks** (`CreateNode` reserves the slot in `mNewNodes` before `Node::Create`, `~Relocator`
+destroys what is registered): for EVERY sequence of `mOldNodes.AddBack` / `CreateNode` / `AddSegment` calls — not only
+those `pvAdd` makes — and every schedule, whichever step throws, the destructor returns the ledger to what it was when
+the Relocator was constructed. -/
+theorem C04_tree_relocator_restores (S : Sched) (plan : List PStep) (w : W) :
+    ((Reloc.run S plan {} w).2.1.destroy (Reloc.run S plan {} w).2.2).led = w.led :=
+  relocRun_destroy S plan w
+
+/-- **Insert / InsertVar / emplace, map insertion and subscript insertion** (`pvInsert` with a constructing creator:
+search with a throwing `IsLess`, `pvAddFirst`, in-place add, `pvAddGrow`, `pvAddSplit` with its cascade up to a new root).
+If the call exits with an exception — thrown by a comparison, by the memory manager at any of its allocations, by a copy
+of a relocation or by the item's own constructor — the tree is *the same tree* (same nodes, hence same contents, order and
+count), the ledger is unchanged except that the node-params block of a container that had no root may now exist (it is
+owned and holds no node), and the container satisfies its invariant. If it returns, tree, iterator and `inserted` are those
+of the fault-free model (`C02_insert_stable` says what they are). In both cases the ledger moved exactly with what the
+container owns (`Frame`): nothing leaked. -/
+theorem C04_tree_insert_strong (S : Sched) (ic : ICfg α) (cfg : Cfg) (hmax : 0 < cfg.maxCap) (lt : α → α → Bool)
+    (ho : Order lt) (ft : FTree α) (hw : ft.WF cfg) (hs : SortedBy lt cfg.multi ft.tree.toList) (x : α) (w : W)
+    {t : Bool} {s : Unit} {ft' : FTree α} {p : Pos} {ins : Bool} {w' : W}
+    (h : insertF S ic cfg lt ft x (copyCreator S) () w = (t, s, ft', p, ins, w')) :
+    (t = true → ft'.tree = ft.tree ∧ w'.led = w.led + (ft'.nodeLed - ft.nodeLed) ∧
+        (ft.tree.root ≠ none → ft' = ft ∧ w'.led = w.led)) ∧
+    (t = false → ft'.tree = (Tree.insert lt cfg ft.tree x).1 ∧ p = (Tree.insert lt cfg ft.tree x).2.1 ∧
+        ins = (Tree.insert lt cfg ft.tree x).2.2) ∧
+    ft'.WF cfg ∧ Frame w ft w' ft' := by
+  obtain ⟨a1, a2, a3⟩ := insertF_spec S ic cfg hmax lt ho ft hw hs x (copyCreator S) () _ (copyCreator_spec S) w h
+  refine ⟨fun ht => ?_, fun ht => ⟨(a2 ht).1, (a2 ht).2.1, (a2 ht).2.2.1⟩, a3, insertF_frame S ic cfg hmax lt ho ft hw hs x w h⟩
+  obtain ⟨e1, e2⟩ := a1 ht
+  refine ⟨e1, e2, fun hr => ?_⟩
+  have hp : ft'.params = ft.params := by rw [hw.params hr, a3.params (by rw [e1]; exact hr)]
+  have hft : ft' = ft := by cases ft; cases ft'; simp_all
+  subst hft
+  exact ⟨rfl, by rw [e2]; apply Ledger.ext' <;> simp⟩
+
+/-- **Add(iter, item) / AddVar / AddCrt** (`pvAdd` at a hint, any valid iterator incl. `GetEnd()` and iterators into internal
+nodes): the same statement for the hinted insertion. -/
+theorem C04_tree_add_strong (S : Sched) (ic : ICfg α) (cfg : Cfg) (hmax : 0 < cfg.maxCap) (ft : FTree α) (hw : ft.WF cfg)
+    (pos : Pos) (hv : ft.tree.ValidPos pos) (x : α) (w : W) {t : Bool} {s : Unit} {ft' : FTree α} {p : Pos} {w' : W}
+    (h : addF S ic cfg ft pos x (copyCreator S) () w = (t, s, ft', p, w')) :
+    (t = true → ft'.tree = ft.tree ∧ w'.led = w.led + (ft'.nodeLed - ft.nodeLed)) ∧
+    (t = false → ft'.tree = (ft.tree.add cfg pos x).1 ∧ p = (ft.tree.add cfg pos x).2) ∧
+    ft'.WF cfg ∧ Frame w ft w' ft' := by
+  obtain ⟨a1, a2, a3⟩ := addF_spec S ic cfg hmax ft hw pos hv x (copyCreator S) () _ (copyCreator_spec S) w h
+  exact ⟨a1, fun ht => ⟨(a2 ht).1, (a2 ht).2.1⟩, a3, addF_frame S ic cfg hmax ft hw pos hv x w h⟩
+
+/-- **Remove(iter) and Extract(iter) / Remove(iter, extItem)** (`pvRemove`: leaf item, internal item replaced by its
+predecessor through `Replace` / `ReplaceRelocate`, empty left subtree destroyed; then `pvRebalance`). If the call exits with
+an exception — the copy of the extracted item into the handle or the assignment of `Replace` threw — and the item type is
+not the documented exception 5 of TreeMap.h (`unsafeRepl`: key and value both not nothrow-anyway-assignable), container and
+ledger are exactly as before. If it returns — also when node merges of `pvRebalance` were refused by faults its
+`catch (...)` swallows — the in-order list lost exactly that element, the invariant holds, the returned iterator denotes the
+same index, and the ledger moved by the node difference and by the destroyed item (an extracted item lives on in the
+handle). Without construction / assignment faults the result is the fault-free removal, node for node. -/
+theorem C04_tree_remove_strong (S : Sched) (ic : ICfg α) (cfg : Cfg) (mode : RemMode) (ft : FTree α) (hw : ft.WF cfg)
+    (pos : Pos) (hv : ft.tree.ValidElem pos) (w : W) {t : Bool} {ft' : FTree α} {p : Pos} {w' : W}
+    (h : removeF S ic cfg mode ft pos w = (t, ft', p, w')) :
+    (t = true → w'.led = w.led ∧ (ic.unsafeRepl = false → ft' = ft)) ∧
+    (t = false →
+      ft'.tree.toList = ft.tree.toList.eraseIdx (ft.tree.idxOf pos) ∧ ft'.WF cfg ∧
+      ft'.tree.idxOf p = ft.tree.idxOf pos ∧ ft'.tree.ValidPos p ∧
+      w'.led = w.led + (ft'.nodeLed - ft.nodeLed) + Ledger.ofItems (itemsDelta mode)) ∧
+    (S.NoCtor → S.NoRepl → t = false ∧ ft'.tree = (ft.tree.remove cfg pos).1 ∧ p = (ft.tree.remove cfg pos).2) :=
+  removeF_spec S ic cfg mode ft hw pos hv w h
+
+/-- **Copy construction (and thereby copy assignment = copy + swap).** A constructor that fails — crew block, node-params
+block, any `Node::Create` of the pre-order `pvCopy`, any element copy — leaves the ledger exactly as it was: nothing
+allocated, nothing constructed (the `catch (...)` of every `pvCopy` level destroys the items and children copied so far, the
+destructor that runs after the delegating constructor's body threw releases params and crew). A constructor that returns
+made the fault-free copy (`C02_copy`: same sequence, well-formed) and the ledger grew by exactly what the new container
+owns plus its crew block. The source is not touched (it is not even an output of `copyF`). -/
+theorem C04_tree_copy_strong (S : Sched) (ic : ICfg α) (cfg : Cfg) (src : FTree α) (hw : src.WF cfg) (w : W)
+    {t : Bool} {ft' : FTree α} {w' : W} (h : copyF S ic cfg src w = (t, ft', w')) :
+    (t = true → w'.led = w.led) ∧
+    (t = false → ft'.tree = Tree.copy cfg src.tree ∧ ft'.WF cfg ∧
+      w'.led = w.led + ft'.own + ({ crews := if ic.crewAlloc then 1 else 0 } : Ledger)) ∧
+    (S.NoAlloc → S.NoCtor → t = false) :=
+  copyF_spec S ic cfg src hw w h
+
+/-- **The container remains fully usable.** After a failed insertion the container is well-formed with the old tree; the
+same (or any other) insertion run without faults returns and gives exactly what the fault-free model gives *on the original
+tree*. (For removal: `C04_tree_remove_strong` returns the very same container, so there is nothing to add.) -/
+theorem C04_tree_usable_after (S S' : Sched) (hc' : S'.Clean) (ic : ICfg α) (cfg : Cfg) (hmax : 0 < cfg.maxCap)
+    (lt : α → α → Bool) (ho : Order lt) (ft : FTree α) (hw : ft.WF cfg) (hs : SortedBy lt cfg.multi ft.tree.toList)
+    (x y : α) (w : W) {s : Unit} {ft' : FTree α} {p : Pos} {ins : Bool} {w' : W}
+    (h : insertF S ic cfg lt ft x (copyCreator S) () w = (true, s, ft', p, ins, w')) (w2 : W) :
+    (insertF S' ic cfg lt ft' y (copyCreator S') () w2).1 = false ∧
+    (insertF S' ic cfg lt ft' y (copyCreator S') () w2).2.2.1.tree = (Tree.insert lt cfg ft.tree y).1 ∧
+    (insertF S' ic cfg lt ft' y (copyCreator S') () w2).2.2.2.2.1 = (Tree.insert lt cfg ft.tree y).2.2 := by
+  obtain ⟨a1, _, a3⟩ := insertF_spec S ic cfg hmax lt ho ft hw hs x (copyCreator S) () _ (copyCreator_spec S) w h
+  obtain ⟨e1, _⟩ := a1 rfl
+  have hok : CreatorOk (copyCreator S') := by
+    intro w0; simp [copyCreator, hc'.ctor w0.ctorN]
+  have hfalse := insertF_ok S' hc'.cmp hc'.alloc hc'.ctor ic cfg lt ft' a3 y (copyCreator S') () hok w2
+  cases hi : insertF S' ic cfg lt ft' y (copyCreator S') () w2 with
+  | mk t2 rest =>
+    obtain ⟨s2, ft2, p2, ins2, w3⟩ := rest
+    rw [hi] at hfalse
+    simp only at hfalse
+    subst hfalse
+    obtain ⟨_, b2, _⟩ := insertF_spec S' ic cfg hmax lt ho ft' a3 (by rw [e1]; exact hs) y (copyCreator S') () _
+      (copyCreator_spec S') w2 hi
+    obtain ⟨c1, _, c3, _⟩ := b2 rfl
+    rw [e1] at c1 c3
+    exact ⟨rfl, c1, c3⟩
+
+/-! Non-vacuity: a capacity-1 tree of three levels (so that an insertion cascades, needs a new root and makes the Relocator's
+`mNewNodes` leave its internal storage), concrete schedules that fail at an allocation, at a comparison, at the creator, and
+one that does not fail; the documented exception 5 as a concrete witness. -/
+def x4Lt (a b : Nat × Nat) : Bool := a.1 < b.1
+def x4Cfg : Cfg := { maxCap := 1, step := 1, blockGt1 := false, linear := true, multi := false }
+def x4Ic : ICfg (Nat × Nat) := { reloc := false, assign := false }
+/-- keys 1..7, every node full -/
+def x4Root : Node (Nat × Nat) :=
+  inner [(4, 4)] [inner [(2, 2)] [leaf 1 [(1, 1)], leaf 1 [(3, 3)]], inner [(6, 6)] [leaf 1 [(5, 5)], leaf 1 [(7, 7)]]]
+def x4Ft : FTree (Nat × Nat) := { tree := { root := some x4Root, count := 7 }, params := true }
+def x4W : W := { led := { leaves := 4, inners := 3, items := 7, params := 1 } }
+def x4Fail (kind : Nat) (k : Nat) : Sched :=
+  { cmp := fun i => kind == 0 && i == k, alloc := fun i => kind == 1 && i == k, ctor := fun i => kind == 2 && i == k,
+    repl := fun i => kind == 3 && i == k, filt := fun _ => false }
+def x4Out (r : Bool × Unit × FTree (Nat × Nat) × Pos × Bool × W) : Bool × List (Nat × Nat) × Ledger :=
+  (r.1, r.2.2.1.tree.toList, r.2.2.2.2.2.led)
+
+example : x4Ft.WF x4Cfg := by
+  refine ⟨⟨by decide, ?_, ?_⟩, fun _ => rfl⟩
+  · intro r hr; cases hr
+    exact ⟨2, Bal.inner 1 _ _ rfl (by
+      intro c hc; simp only [List.mem_cons, List.not_mem_nil, or_false] at hc
+      rcases hc with rfl | rfl <;> exact Bal.inner 0 _ _ rfl (by
+        intro c hc; simp only [List.mem_cons, List.not_mem_nil, or_false] at hc
+        rcases hc with rfl | rfl <;> exact Bal.leaf _ _))⟩
+  · intro r hr; cases hr
+    exact Caps.inner _ _ (by decide) (by
+      intro c hc; simp only [List.mem_cons, List.not_mem_nil, or_false] at hc
+      rcases hc with rfl | rfl <;> exact Caps.inner _ _ (by decide) (by
+        intro c hc; simp only [List.mem_cons, List.not_mem_nil, or_false] at hc
+        rcases hc with rfl | rfl <;> exact Caps.leaf _ _ (by decide) (by decide)))
+/-- inserting key 8 splits three levels and needs a new root: 7 node creations; the 5th one also needs a heap block for
+    `mNewNodes`. The 8th allocation (the new root) refused: everything rolled back. -/
+example : x4Out (insertF (x4Fail 1 7) x4Ic x4Cfg x4Lt x4Ft (8, 8) (copyCreator (x4Fail 1 7)) () x4W)
+    = (true, [(1, 1), (2, 2), (3, 3), (4, 4), (5, 5), (6, 6), (7, 7)], x4W.led) := by decide +kernel
+/-- the 4th comparison of the search throws -/
+example : x4Out (insertF (x4Fail 0 3) x4Ic x4Cfg x4Lt x4Ft (8, 8) (copyCreator (x4Fail 0 3)) () x4W)
+    = (true, [(1, 1), (2, 2), (3, 3), (4, 4), (5, 5), (6, 6), (7, 7)], x4W.led) := by decide +kernel
+/-- the 3rd copy of the relocation (items are copy-only here) throws: the two copies made are destroyed, the 7 new nodes too -/
+example : x4Out (insertF (x4Fail 2 2) x4Ic x4Cfg x4Lt x4Ft (8, 8) (copyCreator (x4Fail 2 2)) () x4W)
+    = (true, [(1, 1), (2, 2), (3, 3), (4, 4), (5, 5), (6, 6), (7, 7)], x4W.led) := by decide +kernel
+/-- no fault: one more level, 4 nodes more (7 created, 3 retired) -/
+example : x4Out (insertF Sched.clean x4Ic x4Cfg x4Lt x4Ft (8, 8) (copyCreator Sched.clean) () x4W)
+    = (false, [(1, 1), (2, 2), (3, 3), (4, 4), (5, 5), (6, 6), (7, 7), (8, 8)],
+       { leaves := 5, inners := 6, items := 8, params := 1 }) := by decide +kernel
+/-- removal of the root item (internal: the predecessor 3 replaces it through `Replace`) with a throwing assignment -/
+example : (removeF (x4Fail 3 0) x4Ic x4Cfg .destroy x4Ft ⟨[], 0⟩ x4W).1 = true ∧
+    (removeF (x4Fail 3 0) x4Ic x4Cfg .destroy x4Ft ⟨[], 0⟩ x4W).2.1.tree.toList = x4Ft.tree.toList := by decide +kernel
+/-- **documented exception 5** (TreeMap.h): with `pvReplaceUnsafe` the second assignment throwing leaves the removed
+    element's value overwritten — the hypothesis `unsafeRepl = false` of `C04_tree_remove_strong` is needed -/
+example : (removeF (x4Fail 3 1) { x4Ic with unsafeRepl := true, mix := fun s d => (d.1, s.2) } x4Cfg .destroy x4Ft ⟨[], 0⟩ x4W).1 = true ∧
+    (removeF (x4Fail 3 1) { x4Ic with unsafeRepl := true, mix := fun s d => (d.1, s.2) } x4Cfg .destroy x4Ft ⟨[], 0⟩ x4W).2.1.tree.toList
+      = [(1, 1), (2, 2), (3, 3), (4, 3), (5, 5), (6, 6), (7, 7)] := by decide +kernel
+/-- a failing copy constructor (the 5th node cannot be created): nothing is left -/
+example : (copyF (x4Fail 1 6) x4Ic x4Cfg x4Ft x4W).1 = true ∧ (copyF (x4Fail 1 6) x4Ic x4Cfg x4Ft x4W).2.2.led = x4W.led := by
+  decide +kernel
+
+end Momo.BTreeF
